@@ -41,6 +41,8 @@ Content(cls) ==
     [] cls = "cmp_G"      -> EncCompressedB(GenPt)
     [] cls = "noncanon"   -> <<PrefixOf(SomePt), SomePt[1] + P>>
     [] cls = "offcurve"   -> <<4, GenPt[1], (GenPt[2] + 1) % P>>
+    [] cls = "nearcurve"  -> <<4, SomePt[1], (SomePt[2] + 2) % P>>             \* off the curve (full size: aimed at the limb comparison)
+    [] cls = "coords_near" -> <<SomePt[1], (SomePt[2] + 2) % P>>
     [] cls = "nonresidue" -> <<2, NonRes>>
     [] cls = "hybrid"     -> <<6 + (GenPt[2] % 2), GenPt[1], GenPt[2]>>
     [] cls = "badlen"     -> <<4, GenPt[1]>> \o <<GenPt[2], 0>>
@@ -62,7 +64,7 @@ Content(cls) ==
     [] cls = "btc_junk"   -> BuildDerSig(5, 7) \o <<1>>
     [] cls = "sig_junk"   -> <<5, 7, 0>>                                   \* r || s || v in range, (almost surely) not a signature
     [] cls = "der_junk"   -> BuildDerSig(5, 7)
-BufClasses == {"inf", "cmp", "unc", "cmp_G", "noncanon", "offcurve", "nonresidue", "hybrid", "badlen", "empty",
+BufClasses == {"inf", "cmp", "unc", "cmp_G", "noncanon", "offcurve", "nearcurve", "coords_near", "nonresidue", "hybrid", "badlen", "empty",
                "sc_small", "sc_zero", "sc_nm1", "sc_n", "sc_max", "coords", "coords_bad", "xonly", "xonly_bad", "sig_junk", "der_junk", "u_exc", "spki_unc", "spki_cmp", "spki_inf", "spki_bits", "btc_junk"}
 
 (* every call of the API over the pool: one record per (operation, slot assignment, control bit, byte class) *)
